@@ -284,7 +284,7 @@ type repCase struct {
 	Scheme       neofscrypto.Scheme
 	SigDefect    string
 	ObjDefect    string // real-validator variant
-	StoreVerdict string // scripted variant: ok | error | busy
+	StoreVerdict string // scripted variant: one of storeOutcomes
 	PayloadLen   int
 	Attrs        int
 }
@@ -335,7 +335,7 @@ func genCase(t *rapid.T, real bool) repCase {
 		c.ObjDefect = rapid.SampledFrom([]string{"none", "none", "none", "none", "none", "none",
 			"id-mismatch", "header-changed", "payload-flip", "payload-size", "no-checksum", "bad-checksum", "no-signature", "foreign-signature", "sig-flip", "too-big", "no-owner"}).Draw(t, "objDefect")
 	} else {
-		c.StoreVerdict = rapid.SampledFrom([]string{"ok", "ok", "ok", "error", "busy"}).Draw(t, "storeVerdict")
+		c.StoreVerdict = genOutcome(t)
 	}
 	return c
 }
@@ -609,13 +609,7 @@ func TestC31Replicate(t *testing.T) {
 		m := obj.ProtoMessage()
 		req, sigOK := c.buildRequest(t, m)
 		want := sigOK && c.authorised()
-		var storeErr error
-		switch c.StoreVerdict {
-		case "error":
-			storeErr = errors.New("verif: object rejected by validation")
-		case "busy":
-			storeErr = apistatus.ErrBusy
-		}
+		storeErr := outcomeErr(c.StoreVerdict)
 		ls := append(c.labels(sigOK), "store:"+c.StoreVerdict)
 		n := c.failing(sigOK, storeErr == nil)
 		ls = append(ls, fmt.Sprintf("failing:%d", min(n, 3)))
